@@ -72,7 +72,9 @@ func c01AgentHistory(R *vr.Result, rng *rand.Rand, id, mode string) {
 	pool := []string{"root", "alice", "bob", "carol", "dave"}
 	var hist []string
 	nUpd, nSet, nRem := 0, 0, 0
-	viol := func(sig, what string) { R.Violate(sig, what, id, map[string]any{"mode": mode + variant, "history": hist}) }
+	viol := func(sig, what string) {
+		R.Violate(sig, what, id, map[string]any{"mode": mode + variant, "history": hist})
+	}
 	for i := 0; i < vr.Pick(25, 40); i++ {
 		u := pool[rng.Intn(len(pool))]
 		m := model[u]
